@@ -144,7 +144,11 @@ func sp155(manufacturer string, locType uint32, loc []byte, rim uuid.UUID) *even
 		FirmwareVersion: eventlog.ByteSizedCStr{Data: "2.7"}, RIMLocatorType: locType, RIMLocator: eventlog.Uint32SizedArray{Data: loc}}
 }
 
-func buildLog(events []*eventlog.SP800155Event3) []byte {
+func buildLog(events []*eventlog.SP800155Event3) []byte { return buildLogSized(events, 0) }
+
+// buildLogSized is buildLog with one more measured event of the given size (0: none) ahead of the
+// SP800-155 events: firmware measures large blobs too.
+func buildLogSized(events []*eventlog.SP800155Event3, large int) []byte {
 	cel := &eventlog.CryptoAgileLog{Header: eventlog.TCGPCClientPCREvent{EventType: eventlog.EvNoAction,
 		EventData: eventlog.TCGEventData{Event: &eventlog.UnknownEvent{Data: []byte("Spec ID Event03\x00 simulated header")}}}}
 	mk := func(e eventlog.SerializableFromBytes, typ uint32) *eventlog.TCGPCREvent2 {
@@ -152,6 +156,13 @@ func buildLog(events []*eventlog.SP800155Event3) []byte {
 			EventData: eventlog.TCGEventData{Event: e}}
 	}
 	cel.Events = append(cel.Events, mk(&eventlog.UnknownEvent{Data: []byte("an unrelated measured event.....")}, 0x80000001))
+	if large > 0 {
+		big := make([]byte, large)
+		for i := range big {
+			big[i] = byte(i*29 + i>>9)
+		}
+		cel.Events = append(cel.Events, mk(&eventlog.UnknownEvent{Data: big}, 0x80000008))
+	}
 	for _, e := range events {
 		cel.Events = append(cel.Events, mk(e, eventlog.EvNoAction))
 	}
@@ -278,7 +289,12 @@ func runC16(r *core.Run) {
 	case "unreadable":
 		os.WriteFile(logPath, []byte{1, 2, 3, 4, 5, 6, 7}, 0o644)
 	default:
-		os.WriteFile(logPath, buildLog(evts), 0o644)
+		large := 0
+		if r.Chance(4, "large-log?") {
+			large = 3 << 19 // 1.5 MiB: a log is as long as what the firmware measured
+			r.Probe("large-event-log")
+		}
+		os.WriteFile(logPath, buildLogSized(evts, large), 0o644)
 	}
 	filter := gce
 	if h.filter == 0 {
